@@ -19,7 +19,7 @@ import (
 const c14Max = 2
 
 type c14Event struct {
-	Kind string `json:"event"` // tcp hs-key hs-badkey hs-health hs-wrongpw session flood shell cmd close wait-end
+	Kind string `json:"event"` // tcp hs-key hs-badkey hs-health hs-wrongpw hs-job session flood shell cmd close wait-end
 	C    int    `json:"conn"`
 	Ch   int    `json:"channel,omitempty"`
 }
@@ -106,7 +106,7 @@ func (m c14Model) events() (out []c14Event) {
 				firstNone = false
 			}
 		case "tcp":
-			for _, k := range []string{"hs-key", "hs-badkey", "hs-health", "hs-wrongpw", "close"} {
+			for _, k := range []string{"hs-key", "hs-badkey", "hs-health", "hs-wrongpw", "hs-job", "close"} {
 				out = append(out, c14Event{Kind: k, C: i})
 			}
 		case "authed":
@@ -207,7 +207,7 @@ func (r *c14Run) apply(e c14Event) string {
 			sock.Close()
 			mc.Phase = "closed"
 		}
-	case "hs-key", "hs-badkey", "hs-health", "hs-wrongpw":
+	case "hs-key", "hs-badkey", "hs-health", "hs-wrongpw", "hs-job":
 		cfg := &ssh.ClientConfig{User: "alice", HostKeyCallback: ssh.InsecureIgnoreHostKey(), Timeout: 10 * time.Second}
 		want := true
 		switch e.Kind {
@@ -223,6 +223,10 @@ func (r *c14Run) apply(e c14Event) string {
 			cfg.User = config.HealthUser
 			cfg.Auth = []ssh.AuthMethod{ssh.Password("wrong")}
 			want = false
+		case "hs-job":
+			// the login of one of the server's own scheduled jobs (password = job name, allowed from 127.0.0.1)
+			cfg.User = config.ScheduleUser
+			cfg.Auth = []ssh.AuthMethod{ssh.Password("nightly")}
 		}
 		pc := &prefixConn{Conn: rc.sock, r: io.MultiReader(bytes.NewReader(rc.banner), rc.sock)}
 		cc, chans, reqs, err := ssh.NewClientConn(pc, r.ts.Addr, cfg)
@@ -361,6 +365,10 @@ func (r *c14Run) cleanup() {
 // c14Replay runs a path on a fresh server; returns the final model and the
 // violation text of the first violating event.
 func c14Replay(path []c14Event) (c14Model, string, int) {
+	// one scheduled job whose login (user DTAIL-SCHEDULE, password = job name) is allowed from the loopback address
+	var job config.Scheduled
+	job.Name, job.Enable, job.AllowFrom, job.TimeRange = "nightly", false, []string{"127.0.0.1"}, [2]int{0, 24}
+	config.Server.Schedule = []config.Scheduled{job}
 	r := &c14Run{ts: StartServer(c14Max), model: c14Model{Conns: make([]c14Conn, 3)}}
 	for i := range r.model.Conns {
 		r.model.Conns[i].Phase = "none"
@@ -493,7 +501,7 @@ func c14ModelStep(m c14Model, e c14Event) (c14Model, bool) {
 			// either answer is allowed; explore the "accepted" continuation only if the real server accepts: take accepted
 			c.Phase = "tcp"
 		}
-	case "hs-key":
+	case "hs-key", "hs-job":
 		if m.open() >= c14Max {
 			c.Phase = "closed" // a correct server must not serve it
 		} else {
@@ -523,7 +531,7 @@ func init() {
 	core.Register(&core.Check{
 		ID:    "C14",
 		Level: "model_checking",
-		Rule: "explicit-state breadth-first search over connection histories against a REAL in-process dtail server (real x/crypto/ssh server and client over loopback, MaxConnections 2, three connections): events tcp-connect, hand-shake with a listed key / an unlisted key / the health password / " +
+		Rule: "explicit-state breadth-first search over connection histories against a REAL in-process dtail server (real x/crypto/ssh server and client over loopback, MaxConnections 2, three connections): events tcp-connect, hand-shake with a listed key / an unlisted key / the health password / the login of a scheduled job / " +
 			"a wrong password, open a session channel (<=2), shell request (<=2 per channel), send a command, abrupt TCP close, wait for the normal end; the model state (per-connection phase, channels, shells; connections sorted) de-duplicates histories; EVERY transition is executed by replaying " +
 			"its history on a fresh server, synchronised by positive protocol events (banner, hand-shake result, global-request reply, channel confirmation, request reply) and by polling the reported counter up to 10 s; oracle = a counter: reported open connections == authenticated, " +
 			"not yet closed connections (+ sockets still hand-shaking, if the server counts them), never above MaxConnections served at once, connect refused when full and accepted when slots are free; states = model states, transitions = replayed histories",
